@@ -137,7 +137,10 @@ def run (args : List Sexp) : Sexp :=
         | .list [a, b] => do some (← a.int?, ← b.int?)
         | _ => none
       let ipb := ipBoundaries objs
-      let wls : List SPeer := (v.pods.foldl (fun (acc : List SPeer) (p, nsl) =>
+      -- pods of one workload may differ (named container ports): the pod standing for the workload is, by the tool's
+      -- convention, the one with the greatest key namespace/name
+      let podsDesc := v.pods.mergeSort (fun a b => (b.1.ns ++ "/" ++ b.1.name) ≤ (a.1.ns ++ "/" ++ a.1.name))
+      let wls : List SPeer := (podsDesc.foldl (fun (acc : List SPeer) (p, nsl) =>
         if acc.any (·.name == wlName p) then acc else acc ++ [⟨wlName p, .pod p nsl, false⟩]) [])
       let ips : List SPeer := rs.map fun (lo, hi) => ⟨ipStr lo ++ "-" ++ ipStr hi, .ip lo, true⟩
       let peers := ips ++ wls
